@@ -1496,6 +1496,10 @@ impl World {
             ReloadTarget::Msk => {
                 let msk = std::mem::replace(&mut self.auth.msk, dummy_msk());
                 let r = self.reload_obj(&msk, "msk");
+                if r.is_none() {
+                    // the record of issued identifiers does not survive the round trip (C17)
+                    self.fail(Class::Tracing, "reload-msk/registration-lost", "the master key cannot be read back");
+                }
                 self.auth.msk = r.unwrap_or(msk);
                 self.check_registered_ids("reload-msk");
             }
